@@ -1,8 +1,8 @@
 SPECIFICATION Spec
 CONSTANTS
     B = 16
-    LB = 2
-    M = 65536
+    LB = 1
+    M = 256
     MaxLen = 70
     MaxChunks = 4
     BitsSet = {0, 255, 165}
